@@ -140,6 +140,10 @@ pub struct Ctrl {
 	pub unknown_addr: usize,
 	/// poison flags as last sampled (at a raw operation)
 	pub seen_poison: Vec<bool>,
+	/// the case runs inside a destructor during an unrelated unwind: `thread::panicking()` is always
+	/// true, so it cannot be used to tell that a fault hits cleanup code (such cases script no
+	/// second panic)
+	pub outer: bool,
 }
 
 thread_local! {
@@ -239,7 +243,7 @@ fn raw_op(addr: usize, kind: Kind) -> bool {
 			Some(Ans::Panic) => {
 				c.raws.push(RawRec { x, kind, occ, granted: natural_grant, scripted: true });
 				c.trace.push(format!("{}{}!", kind.code(), x));
-				if std::thread::panicking() {
+				if std::thread::panicking() && !c.outer {
 					// a panic inside a destructor while unwinding: the process would abort
 					c.dead = Some("abort");
 					return Outcome::Ret(true);
